@@ -13,7 +13,7 @@ use super::rng::Rng;
 // Profiles: which workload / fault mix a run uses (swarm configuration)
 // ---------------------------------------------------------------------------
 
-pub const PROFILES: [&str; 12] = [
+pub const PROFILES: [&str; 16] = [
     "plain",      // fault-free payments, 1-3 hashes
     "faults",     // crashes, write faults, reorder, delayed replies, bad pay outcomes
     "crashy",     // many crashes around the pay call
@@ -26,6 +26,10 @@ pub const PROFILES: [&str; 12] = [
     "heights",    // chain growth, notifications dropped/duplicated/stale
     "overlap",    // new set for a hash while the old lifecycle is finishing
     "config",     // option assignments (C19)
+    "e2wait",     // E2: PayPaymentProvider::wait_payment
+    "e2pay",      // E2: PayPaymentProvider::pay
+    "e2watch",    // E2: BlockWatcher
+    "e2wait-hostile",
 ];
 
 pub fn profile_cfg(profile: &str, content: &mut Rng) -> RunCfg {
@@ -149,10 +153,106 @@ pub fn profile_cfg(profile: &str, content: &mut Rng) -> RunCfg {
             c.f_rpc_write_fault = 30;
             c.mpp_timeout = *content.pick(&[60u64, 600]);
         }
-        "config" => {}
+        "config" => config_profile(&mut c, content),
+        "e2wait" | "e2wait-hostile" => {
+            c.mode = "wait_payment".into();
+            c.max_sets = 0;
+            let n = content.below(5) as usize;
+            c.pre_parts = (0..n).map(|_| *content.pick(&[0u8, 0, 0, 1, 2])).collect();
+            c.f_part_fail = 450;
+            c.f_rpc_reorder = 800;
+            c.f_rpc_delay = 300;
+            c.log = false;
+            if profile == "e2wait-hostile" {
+                c.f_hostile_waitsendpay = 200;
+                c.f_rpc_read_fault = 60;
+            }
+        }
+        "e2pay" => {
+            c.mode = "pay".into();
+            c.max_sets = 0;
+            let n = content.below(4) as usize;
+            c.pre_parts = (0..n).map(|_| *content.pick(&[0u8, 0, 1, 1, 2])).collect();
+            c.f_pay_bad_outcome = 600;
+            c.f_part_fail = 450;
+            c.f_rpc_reorder = 800;
+            c.f_rpc_delay = 300;
+            c.log = false;
+        }
+        "e2watch" => {
+            c.mode = "watcher".into();
+            c.max_sets = 0;
+            c.f_getinfo_fail = 120;
+            c.f_rpc_delay = 350;
+            c.f_notify_drop = 400;
+            c.log = false;
+        }
         _ => {}
     }
     c
+}
+
+/// C19: option assignments, valid and invalid.
+fn config_profile(c: &mut RunCfg, content: &mut Rng) {
+    let mut pick_i64 = |cands: &[i64], r: &mut Rng| -> i64 { *r.pick(cands) };
+    let u16s: [i64; 12] = [0, 1, 2, 34, 35, 143, 144, 1008, 65534, 65535, 65536, -1];
+    let u32s: [i64; 9] = [0, 1, 1000, 5000, 4294967295, 4294967296, -1, i64::MAX, 999_999];
+    let secs: [i64; 9] = [0, 1, 7, 60, 600, -1, 65535, 65536, i64::MIN];
+    let mut o = std::collections::BTreeMap::new();
+    // Mostly valid assignments, some invalid ones.
+    let invalid = content.chance(1, 3);
+    let (cd, pd) = if invalid && content.chance(1, 2) {
+        let a = pick_i64(&u16s, content);
+        let b = pick_i64(&u16s, content);
+        (a, b)
+    } else {
+        let pd = *content.pick(&[35i64, 144, 1008, 2016, 65535, 2]);
+        let cd = *content.pick(&[0i64, 1, 34, pd - 1, pd / 2]);
+        (cd, pd)
+    };
+    o.insert("trampoline-cltv-delta".to_string(), cd);
+    o.insert("trampoline-policy-cltv-delta".to_string(), pd);
+    let base = if invalid && content.chance(1, 3) { pick_i64(&u32s, content) } else { *content.pick(&[0i64, 1, 1000, 4294967295]) };
+    let ppm = if invalid && content.chance(1, 3) { pick_i64(&u32s, content) } else { *content.pick(&[0i64, 1, 5000, 4294967295, 1_000_000]) };
+    let mpp = if invalid && content.chance(1, 3) { pick_i64(&secs, content) } else { *content.pick(&[1i64, 7, 60, 600]) };
+    let pto = if invalid && content.chance(1, 3) { pick_i64(&secs, content) } else { *content.pick(&[0i64, 1, 60, 65535, 65536, 1_000_000]) };
+    o.insert("trampoline-policy-fee-base".to_string(), base);
+    o.insert("trampoline-policy-fee-per-satoshi".to_string(), ppm);
+    o.insert("trampoline-mpp-timeout".to_string(), mpp);
+    o.insert("trampoline-payment-timeout".to_string(), pto);
+    // Typed mirror (used by the oracles when the configuration is valid).
+    c.cltv_delta = cd.clamp(0, 65535) as u16;
+    c.policy_delta = pd.clamp(0, 65535) as u16;
+    c.policy_base = base.clamp(0, u32::MAX as i64) as u32;
+    c.policy_ppm = ppm.clamp(0, u32::MAX as i64) as u32;
+    c.mpp_timeout = mpp.max(0) as u64;
+    c.payment_timeout = pto.max(0) as u64;
+    c.raw_opts = Some(o);
+    c.n_hashes = 1;
+    c.max_sets = 3;
+    c.max_parts = 1;
+    c.f_underfund = 300;
+    c.f_reject_htlc = 200;
+    c.start_height = *content.pick(&[100u32, 0, 800_000]);
+    c.log = false;
+}
+
+/// Reference validator for C19: must the plugin refuse to start?
+pub fn config_must_refuse(c: &RunCfg) -> Option<bool> {
+    let o = c.raw_opts.as_ref()?;
+    let g = |k: &str| o.get(k).copied().unwrap_or(0);
+    let cd = g("trampoline-cltv-delta");
+    let pd = g("trampoline-policy-cltv-delta");
+    let in_u16 = |v: i64| (0..=65535).contains(&v);
+    let in_u32 = |v: i64| (0..=u32::MAX as i64).contains(&v);
+    let refuse = !in_u16(cd)
+        || !in_u16(pd)
+        || pd <= cd
+        || !in_u32(g("trampoline-policy-fee-base"))
+        || !in_u32(g("trampoline-policy-fee-per-satoshi"))
+        || g("trampoline-mpp-timeout") < 0
+        || g("trampoline-payment-timeout") < 0;
+    Some(refuse)
 }
 
 // ---------------------------------------------------------------------------
@@ -743,6 +843,13 @@ impl RandomSched {
 
 impl Scheduler for RandomSched {
     fn next(&mut self, sim: &Sim) -> Option<Op> {
+        if sim.w.cfg.mode != "process" && !sim.w.plugin_up {
+            return None;
+        }
+        if sim.w.cfg.mode == "process" && sim.w.main_result.is_some() && !sim.w.init_acked {
+            // The plugin refused to start (C19): nothing to schedule.
+            return None;
+        }
         loop {
             match self.phase {
                 Phase::Main => match self.main_op(sim) {
@@ -805,4 +912,145 @@ impl Scheduler for ScriptSched {
 
 pub fn class_is_tramp(c: &Class) -> bool {
     matches!(c, Class::Trampoline(_))
+}
+
+// ---------------------------------------------------------------------------
+// E2: scheduler for the BlockWatcher component (C20)
+// ---------------------------------------------------------------------------
+
+pub struct WatcherSched {
+    pub rng: Rng,
+    steps: u32,
+    phase: u8,
+    end_steps: u32,
+}
+
+impl WatcherSched {
+    pub fn new(seed: u64) -> Self {
+        WatcherSched {
+            rng: Rng::new(seed),
+            steps: 0,
+            phase: 0,
+            end_steps: 0,
+        }
+    }
+}
+
+impl Scheduler for WatcherSched {
+    fn next(&mut self, sim: &Sim) -> Option<Op> {
+        if !sim.w.plugin_up {
+            // start() failed: in the real process main() exits with it.
+            return None;
+        }
+        let node = &sim.w.node;
+        let c = &sim.w.cfg;
+        let first_issued = node
+            .rpcs
+            .iter()
+            .position(|r| matches!(r.state, RpcState::Issued));
+        let first_ready = node
+            .rpcs
+            .iter()
+            .position(|r| matches!(r.state, RpcState::ReplyReady(_)));
+        if self.phase == 0 {
+            self.steps += 1;
+            if self.steps > 60 {
+                self.phase = 1;
+                return Some(Op::QuiesceMark);
+            }
+            let mut cands: Vec<(Op, u32)> = Vec::new();
+            if let Some(i) = first_issued {
+                let fault = if self.rng.permille(c.f_getinfo_fail) {
+                    if self.rng.chance(1, 2) {
+                        RpcFault::Transport
+                    } else {
+                        RpcFault::Code(-1)
+                    }
+                } else {
+                    RpcFault::None
+                };
+                let deliver = !self.rng.permille(c.f_rpc_delay);
+                cands.push((
+                    Op::Apply {
+                        rpc: sim.sel_of(i),
+                        fault,
+                        deliver,
+                    },
+                    60,
+                ));
+            }
+            if let Some(i) = first_ready {
+                cands.push((Op::Reply { rpc: sim.sel_of(i) }, 25));
+            }
+            let h = node.height;
+            let told = sim.or.watch_told;
+            let nb = match self.rng.below(9) {
+                0 => h,
+                1 => h.saturating_sub(1 + self.rng.below(5) as u32),
+                2 => told.saturating_add(1),
+                3 => told,
+                4 => told.saturating_sub(1),
+                5 => 0,
+                6 => h.saturating_add(self.rng.below(3) as u32),
+                7 => self.rng.below(1_000_000) as u32,
+                _ => h,
+            };
+            cands.push((
+                Op::Comp {
+                    cmd: "new_block".into(),
+                    arg: nb as u64,
+                },
+                30,
+            ));
+            cands.push((
+                Op::Block {
+                    k: 1 + self.rng.below(3) as u32,
+                    notify: NotifyMode::Drop,
+                },
+                20,
+            ));
+            let ms = *self.rng.pick(&[1u64, 50, 1000, 30_000, 59_999, 60_000, 60_001]);
+            cands.push((Op::Time { ms }, 25));
+            let w: Vec<u32> = cands.iter().map(|c| c.1).collect();
+            let i = self.rng.pick_weighted(&w);
+            return Some(cands.swap_remove(i).0);
+        }
+        // End phase: drain, mark, wait one poll interval, answer promptly.
+        self.end_steps += 1;
+        if self.end_steps > 40 {
+            return None;
+        }
+        if let Some(i) = first_ready {
+            return Some(Op::Reply { rpc: sim.sel_of(i) });
+        }
+        if let Some(i) = first_issued {
+            return Some(Op::Apply {
+                rpc: sim.sel_of(i),
+                fault: RpcFault::None,
+                deliver: true,
+            });
+        }
+        match self.phase {
+            1 => {
+                self.phase = 2;
+                Some(Op::Block {
+                    k: 1 + self.rng.below(4) as u32,
+                    notify: NotifyMode::Drop,
+                })
+            }
+            2 => {
+                self.phase = 3;
+                Some(Op::CatchupMark)
+            }
+            3 => {
+                self.phase = 4;
+                Some(Op::Time { ms: 60_002 })
+            }
+            4 => {
+                self.phase = 5;
+                Some(Op::Time { ms: 1 })
+            }
+            _ => None,
+        }
+    }
 }
